@@ -140,12 +140,21 @@ static void build(char*& cur, Variant& out)
   case 'f': out = false; break;
   case 'i': out = (int)atoll(it + 1); break;
   case 'I': out = (int64)atoll(it + 1); break;
+  case 'u': out = (uint)strtoull(it + 1, 0, 10); break;       // outside the class of the property: unsigned
+  case 'U': out = (uint64)strtoull(it + 1, 0, 10); break;
   case 's': out = hexstr(it + 1); break;
   case 'L':
     {
       long n = atol(it + 1);
       List<Variant>& l = out.toList();
       for(long i = 0; i < n; ++i) build(cur, l.append(Variant()));
+      break;
+    }
+  case 'A':                                                     // outside the class of the property: Array<Variant>
+    {
+      long n = atol(it + 1);
+      out.toArray().reserve(n);                                 // the elements stay where they are built
+      for(long i = 0; i < n; ++i) build(cur, out.toArray().append(Variant()));
       break;
     }
   case 'M':
@@ -284,6 +293,17 @@ static void op(long c, long, vh::Tok& t)
       }
     }
     free(text);
+  }
+  else if(!strcmp(t.v[0], "xscan") && t.n >= 2)
+  {
+    // libc's sscanf("%x") through String::scanf, as readToken calls it on its four digits: "1 <w>" or "0 -"
+    size_t n; unsigned char* b = vh::unhex(t.v[1], n, 1);
+    {
+      String k((const char*)b, n);
+      uint w = 0;
+      if(k.scanf("%x", &w) == 1) printf("1 %u", w); else printf("0 -");
+    }
+    free(b);
   }
   else if(!strcmp(t.v[0], "chkpos"))
     printf("-");                         // evaluated by the spec only
